@@ -1,8 +1,20 @@
     // ===== src/filter/bcj/riscv.rs =====
-    use crate::filter::bcj::verif_kani::bcj_group_roundtrip;
+    use crate::filter::bcj::verif_kani::{bcj_group_roundtrip, bcj_split_homomorphism};
     #[kani::proof]
     #[kani::unwind(12)]
     fn c11_bcj_riscv_group() { bcj_group_roundtrip::<8>(BCJFilter::new_riscv, 2, 0, 7); }
     #[kani::proof]
     #[kani::unwind(14)]
     fn c11_bcj_riscv_two() { bcj_group_roundtrip::<12>(BCJFilter::new_riscv, 2, 0, 7); }
+    #[kani::proof]
+    #[kani::unwind(18)]
+    fn c07_bcj_riscv_split_k9_enc() { bcj_split_homomorphism::<14>(BCJFilter::new_riscv, 2, 9, true); }
+    #[kani::proof]
+    #[kani::unwind(18)]
+    fn c07_bcj_riscv_split_k9_dec() { bcj_split_homomorphism::<14>(BCJFilter::new_riscv, 2, 9, false); }
+    #[kani::proof]
+    #[kani::unwind(18)]
+    fn c07_bcj_riscv_split_k10_enc() { bcj_split_homomorphism::<14>(BCJFilter::new_riscv, 2, 10, true); }
+    #[kani::proof]
+    #[kani::unwind(18)]
+    fn c07_bcj_riscv_split_k10_dec() { bcj_split_homomorphism::<14>(BCJFilter::new_riscv, 2, 10, false); }
